@@ -8,6 +8,24 @@ from vf.core import Ob, AlgOb
 from vf.props import apigen as ag, c01, c10
 
 
+def ntt_module_obs(ctx, t, sizes=((1, (0, 1)), (2, (0, 1, 2, 3)), (4, (0, 15, 5)), (8, (0, 0xA5)))):
+    """NTT120 module pipeline: dft -> idft (both variants), all coefficient sign classes for N<=2, representative ones for N=4,8 (shared with C03)"""
+    obs = []
+    for (nn, masks) in sizes:
+        for m in masks:
+            for tmpa in (0, 1):
+                for (rsz, asz) in ((1, 1),) + (((2, 1), (1, 2)) if (nn == 4 and m == 5) or (nn == 1 and m == 1) else ()):
+                    d = {"NN": nn, "MM": max(nn // 2, 1), "NEGMASK": m, "RSZ": rsz, "ASZ": asz}
+                    if tmpa:
+                        d["TMPA"] = None
+                    obs.append(AlgOb("ntt120/dft-idft%s/N=%d/signs=%d/res=%d/a=%d" % ("_tmp_a" if tmpa else "", nn, m, rsz, asz), "pipe.c", "h_pipe_ntt",
+                                     "vf.alg.q120:check_ntt_module_roundtrip", params={"nn": nn, "rsz": rsz, "asz": asz, "negmask": m, "primes": c10.PRIMES30},
+                                     defs=d, libs=ag.LIBS, unwind=200, inc=[t], family="ntt120 dft->idft", timeout=900, dialect="--z3",
+                                     desc="every int64 coefficient of the given sign classes: the 128-bit result of vec_znx_idft(vec_znx_dft(a)) is congruent to a modulo the four "
+                                          "primes and centered, hence equal to a; extra output limbs are zero"))
+    return obs
+
+
 def obligations(ctx):
     t = ag.tables(ctx)
     obs = []
@@ -19,19 +37,7 @@ def obligations(ctx):
                               ag.LIBS, unwind=80, inc=[t], family="integer pipeline", timeout=900,
                               unwindset=",".join("%s.%d:%d" % (f, i, nn + 2) for f, n in (("znx_rotate_i64", 4), ("znx_rotate_inplace_i64", 2), ("znx_automorphism_inplace_i64", 6)) for i in range(n)),
                               desc="4 public calls on symbolic 2-limb vectors with symbolic p1, odd p2: result equals the balanced digits of sigma_p2(x*X^p1)+y computed in 128-bit arithmetic"))
-    # NTT120 module pipeline: dft -> idft (both variants), all coefficient sign classes for N=2, representative ones for N=4,8
-    for (nn, masks) in ((2, (0, 1, 2, 3)), (4, (0, 15, 5)), (8, (0, 0xA5))):
-        for m in masks:
-            for tmpa in (0, 1):
-                for (rsz, asz) in ((1, 1),) + (((2, 1), (1, 2)) if nn == 4 and m == 5 else ()):
-                    d = {"NN": nn, "MM": nn // 2, "NEGMASK": m, "RSZ": rsz, "ASZ": asz}
-                    if tmpa:
-                        d["TMPA"] = None
-                    obs.append(AlgOb("ntt120/dft-idft%s/N=%d/signs=%d/res=%d/a=%d" % ("_tmp_a" if tmpa else "", nn, m, rsz, asz), "pipe.c", "h_pipe_ntt",
-                                     "vf.alg.q120:check_ntt_module_roundtrip", params={"nn": nn, "rsz": rsz, "asz": asz, "negmask": m, "primes": c10.PRIMES30},
-                                     defs=d, libs=ag.LIBS, unwind=200, inc=[t], family="ntt120 dft->idft", timeout=900, dialect="--z3",
-                                     desc="every int64 coefficient of the given sign classes: the 128-bit result of vec_znx_idft(vec_znx_dft(a)) is congruent to a modulo the four "
-                                          "primes and centered, hence equal to a; extra output limbs are zero"))
+    obs += ntt_module_obs(ctx, t)
     # FFT64 pipelines of 3-4 public calls (shared analysis with C01/C02), shapes different from those checks
     for nn in (4, 8):
         for avx in (0, 1):
